@@ -44,6 +44,9 @@ type ServeScript struct {
 	// Batch (streamable transports, protocol 2025-03-26 only): all ops are POSTed as one JSON-RPC batch; the
 	// answers come back as one JSON array (JSON mode) or as the events of one stream (SSE mode).
 	Batch bool `json:"batch,omitempty"`
+	// Spell: memio.Respell mode for what the peer sends over HTTP (equivalent JSON spellings, white space
+	// around the text)
+	Spell int `json:"spell,omitempty"`
 }
 
 func genServe(rt *rapid.T) ServeScript {
@@ -59,6 +62,9 @@ func genServe(rt *rapid.T) ServeScript {
 	}
 	if s.Transport != "ndjson" && s.Version == "2025-03-26" {
 		s.Batch = rapid.Bool().Draw(rt, "batch")
+	}
+	if s.Transport != "ndjson" {
+		s.Spell = rapid.SampledFrom([]int{0, 0, 4, 5}).Draw(rt, "spell")
 	}
 	used := map[string]bool{`"hs"`: true}
 	n := rapid.IntRange(1, 5).Draw(rt, "ops")
@@ -469,7 +475,7 @@ func serveHTTP(s ServeScript, server *mcp.Server, res *vt.Result) {
 		for i := range s.Ops {
 			wires = append(wires, s.request(i))
 		}
-		ex := post("[" + strings.Join(wires, ",") + "]")
+		ex := post(memio.Respell("["+strings.Join(wires, ",")+"]", s.Spell))
 		if ex == nil || ex.Status() != 200 {
 			st := -1
 			if ex != nil {
@@ -539,7 +545,7 @@ func serveHTTP(s ServeScript, server *mcp.Server, res *vt.Result) {
 		return
 	}
 	for i, op := range s.Ops {
-		ex := post(s.request(i))
+		ex := post(memio.Respell(s.request(i), s.Spell))
 		if ex == nil || ex.Status() != 200 {
 			st := -1
 			if ex != nil {
